@@ -20,7 +20,7 @@ func init() { register("C04", propC04) }
 
 var c04Passwords = []string{
 	"plain-pw", "with:colon", ":leading", "trailing:", "a:b:c", "sp ace", " lead", "trail ", "tab\there", "quote\"q", "back\\slash", "uni-ü-ñ", "emoji-\U0001F600", " sep", "nul\x00in", "new\nline",
-	"\xff\xfe-not-utf8", strings.Repeat("p", 255), strings.Repeat("p", 256), strings.Repeat("p", 257), "p", "UPPER", "upper", "%41", "&amp;", "{\"json\":1}", "-dash-first", "=eq", "a@b,c=d",
+	"\xff\xfe-not-utf8", strings.Repeat("\x01", 250), strings.Repeat("\u00fc", 120), strings.Repeat("p", 255), strings.Repeat("p", 256), strings.Repeat("p", 257), "p", "UPPER", "upper", "%41", "&amp;", "{\"json\":1}", "-dash-first", "=eq", "a@b,c=d",
 }
 
 var c04Users = []string{"alice", "Bob", "a.user", "x.admin", "d@example.org", "e-f_g", "0", strings.Repeat("u", 249), "d", "alice@corp", "alice@corp@example.org"}
@@ -107,7 +107,14 @@ func propC04(r *Run) {
 			}
 			lastProbed = u
 			var pw string
-			switch r.Choose("probe-pw-kind", 5) {
+			switch r.Choose("probe-pw-kind", 6) {
+			case 5: // the password of a user whose name extends this one with '@...' (or the other way round)
+				pw = stored[u]
+				for _, o := range users {
+					if o != u && (strings.HasPrefix(o, u+"@") || strings.HasPrefix(u, o+"@")) {
+						pw = stored[o]
+					}
+				}
 			case 4:
 				pw = prevStored[u] // the password before the last change (the current one if there was none)
 				if pw == "" {
@@ -159,6 +166,7 @@ func propC04(r *Run) {
 			}
 			fes := []fe{
 				{"sasl", u != "" && pw != "" && len(u) <= 256 && len(pw) <= 256, "non-empty fields of at most 256 bytes", u, want},
+				{"sasl-realm", u != "" && pw != "" && len(u) <= 256 && len(pw) <= 256, "the realm field is not part of the user name: same verdict as without it", u, want},
 				{"ldap", pw != "", "non-empty password; the reference is asked for the name up to the first '@'", bindName, wantLDAP},
 				{"basic", !strings.Contains(u, ":") && u != "", "user without ':'", u, want},
 				{"api", u != "" && pw != "" && utf8.ValidString(pw) && utf8.ValidString(u), "JSON carries Unicode strings; non-empty fields", u, want},
@@ -181,6 +189,9 @@ func propC04(r *Run) {
 					}
 				} else {
 					c := &Call{Kind: "authenticate", Via: f.via, Agent: a.idx, User: f.user, PW: pw}
+					if f.via == "sasl-realm" {
+						c.Via, c.Realm = "sasl", []string{"corp", "example.org", "corp@example.org"}[k%3]
+					}
 					if f.via == "basic-no-credentials" {
 						c.Via = "basic"
 						c.Raw = []string{"no-header", "Basic", "Basic !!!not-base64!!!", "Bearer " + base64.StdEncoding.EncodeToString([]byte(f.user+":"+stored[u])), "Basic " + base64.StdEncoding.EncodeToString([]byte(f.user)), "basic"}[k%6]
